@@ -320,5 +320,6 @@ func TestProp(t *testing.T) {
 			d := genDoc(t, rapid.IntRange(0, 3).Draw(t, "depth"), can)
 			return VarsCase{Doc: d.JSON()}
 		}, checkVars),
+		hx.NewSub("yaml_values", 400, 3000, genY, checkY),
 	)
 }
